@@ -221,10 +221,24 @@ class GitDist(Dist):
             return
         cmd = ['git', 'submodule', 'status', '--cached', '--recursive']
         modlist = subprocess.check_output(cmd, cwd=src, universal_newlines=True).splitlines()
+        recorded: T.Dict[str, str] = {'': 'HEAD'}
         for submodule in modlist:
             status = submodule[:1]
             sha1, rest = submodule[1:].split(' ', 1)
             subpath = rest.rsplit(' ', 1)[0]
+            # `git submodule status --cached` names the commit in the staging area; what is packaged is the commit
+            # recorded by the latest commit (of the parent repository, for a nested submodule)
+            parent = max((p for p in recorded if p == '' or subpath.startswith(p + '/')), key=len)
+            inner = subpath[len(parent) + 1:] if parent else subpath
+            found, committed = quiet_git(['rev-parse', '--verify', '--quiet', f'{recorded[parent]}:{inner}'],
+                                         os.path.join(src, parent))
+            if not found:
+                mlog.warning(f'Submodule {subpath!r} is not part of the latest commit and is not added to the dist')
+                continue
+            if committed.strip() != sha1:
+                handle_dirty_opt(f'Submodule {subpath!r} has uncommitted changes that will not be included in the dist tarball', self.options.allow_dirty)
+                sha1 = committed.strip()
+            recorded[subpath] = sha1
 
             if status == '-':
                 mlog.warning(f'Submodule {subpath!r} is not checked out and cannot be added to the dist')
